@@ -314,7 +314,7 @@ def unit_verus(u, tier):
     trusted_found = scan_trusted(gen)
     res = run_verus(gpath, bdir)
     js = res["json"]
-    out = {"unit": name, "backend": "verus", "regions": [{k: r[k] for k in ("id", "file", "selector", "sha256", "lines")} for r in regions],
+    out = {"unit": name, "backend": "verus", "regions": [{k: r[k] for k in ("id", "file", "selector", "sha256", "lines", "r2_dropped")} for r in regions],
            "cmd": res["cmd"], "wall_s": round(res["wall"], 2), "obligations": [], "status": "ok", "notes": [],
            "trusted_found": [f"{w} @gen.rs:{ln}: {t}" for (w, ln, t) in trusted_found]}
     if res["timeout"] or js is None:
@@ -687,7 +687,7 @@ def unit_kani(u, tier):
         extract.verify_identity(gen, regions)
         open(gpath, "w").write(gen)
     trusted_found = scan_trusted(gen)
-    out = {"unit": name, "backend": "kani", "auto_extracted": auto_added, "regions": [{k: r[k] for k in ("id", "file", "selector", "sha256", "lines")} for r in regions],
+    out = {"unit": name, "backend": "kani", "auto_extracted": auto_added, "regions": [{k: r[k] for k in ("id", "file", "selector", "sha256", "lines", "r2_dropped")} for r in regions],
            "obligations": [], "status": "ok", "notes": [], "cmd": "kani gen.rs --harness <h> --exact " + " ".join(u.get("kani", {}).get("flags", [])) + "  (failed harnesses re-run with -Z concrete-playback --concrete-playback=print)",
            "trusted_found": [f"{w} @gen.rs:{ln}: {t}" for (w, ln, t) in trusted_found]}
     flags = u.get("kani", {}).get("flags", [])
